@@ -1543,6 +1543,12 @@ impl Reference
 					{
 						Some(ReferenceStep::Element { is_endless, .. }) =>
 						{
+							// As with members, the parameter itself is the
+							// pointer to the array that is indexed.
+							if is_immediate_parameter && !is_endless
+							{
+								indices.push(llvm.const_i32(0));
+							}
 							!is_endless
 						}
 						Some(ReferenceStep::Member { .. }) =>
